@@ -64,4 +64,22 @@ example :
     structuralIndex (build true d.text) 5 = some 1 ∧ structuralPos (build true d.text) 1 = some 5 := by
   decide +kernel
 
+/-- For every container (`[…]` or `{…}`) occurring in a valid document — `d.toks = A ++ c.toks ++ B`
+says that the value `c` occupies the token segment after `A`; every sub-value of the document
+occupies such a segment by construction of `JVal.toks` — `find_close` at the byte position of its
+open bracket returns the byte position of its own close bracket (the last byte of `c`). -/
+theorem find_close_eq (hasAvx2 : Bool) (d : Doc) (A B : List Tok) (c : JVal)
+    (hc : c.isContainer = true) (hocc : d.toks = A ++ c.toks ++ B) :
+    findClose (build hasAvx2 d.text) d.text (toksBytes A).length =
+      some ((toksBytes A).length + (toksBytes c.toks).length - 1) := by
+  rw [Doc.text, hocc]; exact findClose_in_context hasAvx2 A B c hc
+
+/-- Non-vacuity: in `[[],{}]` the inner `{}` at byte 4 closes at byte 5, the outer array at 6. -/
+example :
+    let inner : JVal := .obj0 []
+    let d : Doc := ⟨[], .arr [] (.arr0 []) [] (.cons [] inner [] .nil), []⟩
+    d.toks = [.lbracket, .lbracket, .rbracket, .comma] ++ inner.toks ++ [.rbracket] ∧
+    findClose (build true d.text) d.text 4 = some 5 ∧ findClose (build true d.text) d.text 0 = some 6 := by
+  refine ⟨rfl, ?_, ?_⟩ <;> decide +kernel
+
 end SV.Props.C32
